@@ -6,3 +6,4 @@ import Rp2.Props.C06
 #print axioms Rp2.C06.source_iterator_is_window
 #print axioms Rp2.C06.source_yearly_loop_is_model
 #print axioms Rp2.C06.source_yearly_cut
+#print axioms Rp2.C06.source_yearly_loop_with_break_is_model
